@@ -41,7 +41,8 @@ def run(ctx):
         if not pins or not locks:
             continue
         # uses of the pinned snapshot under the lock: the transaction object built from it / the compaction it feeds
-        uses = [bb for bb, _ in b.aggregates(TXN)] + start_sites(prog, b, 'Compactor::compact_table')
+        uses = [bb for bb, _ in b.aggregates(TXN)] + start_sites(prog, b, 'Compactor::compact_table') \
+            + start_sites(prog, b, 'Snapshot::get_rowsets_of')
         if not uses:
             continue
         n += 1
@@ -60,7 +61,9 @@ def run(ctx):
     ctx.floor(R1, n, 2, 'functions that both pin a version and take a table lock')
     # who acquires the deletion lock
     callers = [c for c in prog.calls_matching_all(suffix('SecondaryTable::lock_for_deletion', 'TransactionManager::lock_for_deletion'))]
-    allowed = {SEC + 'transaction::SecondaryTransaction::start', SEC + 'table::SecondaryTable::lock_for_deletion'}
+    allowed = {SEC + 'transaction::SecondaryTransaction::start', SEC + 'table::SecondaryTable::lock_for_deletion',
+               # DROP TABLE retires every row-set of the table: it holds the lock for its whole (short) critical section (R6)
+               SEC + 'manifest::<impl storage::secondary::SecondaryStorage>::drop_table_inner'}
     for c in callers:
         ok = c.body.root in allowed
         ctx.ob(R1, f'who:{c.body.root}→lock_for_deletion', ok,
@@ -186,6 +189,31 @@ def run(ctx):
                    [site(td, p) for p in push],
                    what='SQL DELETE buffers row handlers taken from a scan that pinned an older snapshot: after a compaction in between '
                         'the delete vectors point at row-sets that are gone and the acknowledged DELETE removes nothing')
+
+    R6 = 'C09-R6'
+    ctx.rule(R6, 'whoever retires row-sets of a table holds that table\'s lock: every function that emits EpochOp::DeleteRowSet either is '
+                 'compact_table (called under the try_lock guard, R2) or acquires lock_for_deletion itself, before it pins the version and '
+                 'before commit_changes; an unlocked DROP TABLE lets a compaction in flight commit a row-set into a table that is gone')
+    EPOCHOP_ = SEC + 'version_manager::EpochOp'
+    emitters = sorted({bd.root for bd in prog.bodies.values() if any(True for _ in bd.aggregates(EPOCHOP_, 'DeleteRowSet'))})
+    ctx.floor(R6, len(emitters), 2, 'functions emitting EpochOp::DeleteRowSet')
+    for r in emitters:
+        if r.endswith('Compactor::compact_table'):
+            ctx.ob(R6, f'{r}·under-lock', True, 'compact_table: called only under the try_lock_for_compaction guard (C09-R2)')
+            continue
+        grp = [g for g in prog.group(r)]
+        main = next((g for g in grp if any(True for _ in g.aggregates(EPOCHOP_, 'DeleteRowSet'))), None)
+        locks = []
+        for l in LOCKS:
+            locks += done_sites(prog, main, l)
+        cc = start_sites(prog, main, 'VersionManager::commit_changes')
+        pins = start_sites(prog, main, 'VersionManager::pin')
+        ok = bool(locks) and bool(cc) and all(main.dominated_by_any(set(locks), x) for x in cc + pins)
+        ctx.functions_analysed.add(main.name)
+        ctx.ob(R6, f'{r}·under-lock', ok,
+               f'{main.name}: table lock at {locks}; pin at {pins}; commit_changes at {cc}', [site(main, x) for x in (locks or cc)],
+               what=f'{r.rsplit("::", 1)[-1]} retires the row-sets of a table without holding its deletion/compaction lock: a compaction in '
+                    'flight commits afterwards (AddRowSet for a dropped table, duplicate DeleteRowSet) and the database cannot be reopened')
 
     from rules.c07 import compaction_touches_only_what_it_merged
     compaction_touches_only_what_it_merged(ctx, prog, 'C09-R5')
